@@ -24,6 +24,8 @@ def check(rep):
     PR.rule_compiles(ctx, layouts=(False,))
     PR.rule_names_bound(ctx, layouts=(False,))
     PR.rule_generator_total(ctx)
+    if rep.tier == "thorough":
+        PR.rule_exhaustive_predicates(ctx, rid="C07.COMPILES-EXHAUSTIVE", kinds=("compile",))
     PR.rule_trailing_raise(ctx, rid="C07.ENDS-IN-GROUP-OR-UNROUTABLE")
     PR.rule_literal_terms(ctx, rid="C07.TERM-RENDER")
     PR.rule_ident_positions(ctx)
